@@ -47,11 +47,18 @@ theorem C06_term_monotone (s s' : PSys) (e : Event) (h : applyEvent s e = .ok s'
     · split at h
       · split at h
         · rename_i m _ _
-          cases m <;> simp only [addReleased] at h <;> cases h <;>
-            (by_cases hj : j = i <;> simp [upd, hj])
+          cases m <;> simp only [addReleased] at h <;> cases h <;> (exact Nat.le_refl _)
         · cases h
       · cases h
-    · cases h
+    · split at h
+      · split at h
+        · split at h
+          · rename_i m _ _
+            cases m <;> simp only [addReleased] at h <;> cases h <;>
+              (by_cases hj : j = i <;> simp [upd, hj])
+          · cases h
+        · cases h
+      · cases h
   | persist i k =>
     simp only [applyEvent, ok] at h
     split at h
@@ -73,8 +80,15 @@ theorem C06_term_monotone (s s' : PSys) (e : Event) (h : applyEvent s e = .ok s'
       · cases h; by_cases hj : j = i <;> simp [upd, hj]
       · cases h
     · cases h
-  | campaign i | grant i c | rdy i | crash i | win i cfg q | stepDown i | leaderAppend i e
-  | recvApp i m | ackCommitted i | commitLeader i c cfg q | commitApp i c m | commitHB i c m
+  | grant i c =>
+    simp only [applyEvent, ok] at h
+    split at h
+    · split at h
+      · cases h; by_cases hj : j = i <;> simp [upd, hj]
+      · cases h
+    · cases h
+  | campaign i | rdy i | crash i | win i cfg q | stepDown i | leaderAppend i e
+  | recvApp i m | ackCommitted i | ackSelf i idx | commitLeader i c cfg q | commitApp i c m | commitHB i c m
   | commitClaim i m =>
     simp only [applyEvent, ok] at h
     split at h
@@ -95,30 +109,51 @@ theorem C06_restart_from_durable (s s' : PSys) (i : Nat) (h : applyEvent s (.res
   · cases h; simp [upd]
   · cases h
 
-/-- **Persist before send**: a promise-carrying message (vote request, vote grant, append
-acknowledgement) is released only if the durable image covers it — the durable term is beyond the
-message's term, or equals it with the durable vote being the promised one / the durable log holding
-the acknowledged prefix. -/
+/-- **Persist before send**: a vote request or a vote grant is released only if the durable image
+covers it — the durable term is beyond the message's term, or equals it with the durable vote being
+the promised one; an append acknowledgement is released only if it is covered by the durable image,
+i.e. it was generated before an image (the Ready's writes) that has since been made durable. -/
 theorem C06_release_obligation (s s' : PSys) (i : Nat) (key : OMsg)
     (h : applyEvent s (.release i key) = .ok s') :
-    ∃ m ∈ (s.nodes i).outbox, sameKey key m = true ∧ releasable (s.nodes i) m = true := by
+    (key.isAck = true ∧ ∃ m ∈ (s.nodes i).dacks, sameKey key m = true) ∨
+    (key.isAck = false ∧ ∃ m ∈ (s.nodes i).outbox, sameKey key m = true ∧ releasable (s.nodes i) m = true) := by
   simp only [applyEvent, ok] at h
   split at h
-  · rename_i k hk
+  · rename_i hk
     split at h
     · rename_i m hm
+      exact Or.inl ⟨hk, m, List.mem_of_find?_eq_some hm, List.find?_some hm⟩
+    · cases h
+  · rename_i hk
+    split at h
+    · rename_i k hfk
       split at h
-      · rename_i hg
-        refine ⟨m, List.mem_of_getElem? hm, ?_, hg.2⟩
-        have := List.findIdx?_eq_some_iff_getElem.mp hk
-        obtain ⟨hlt, hp, _⟩ := this
-        have : (s.nodes i).outbox[k] = m := by
-          have := List.getElem?_eq_getElem hlt
-          rw [this] at hm
-          exact Option.some.inj hm
-        rw [← this]; exact hp
+      · rename_i m hm
+        split at h
+        · rename_i hg
+          refine Or.inr ⟨by simpa using hk, m, List.mem_of_getElem? hm, ?_, hg.2.1⟩
+          have := List.findIdx?_eq_some_iff_getElem.mp hfk
+          obtain ⟨hlt, hp, _⟩ := this
+          have : (s.nodes i).outbox[k] = m := by
+            have := List.getElem?_eq_getElem hlt
+            rw [this] at hm
+            exact Option.some.inj hm
+          rw [← this]; exact hp
+        · cases h
       · cases h
     · cases h
+
+/-- what "covered by the durable image" means: the acknowledgements of an image are those generated
+before the image was taken, and they become `dacks` exactly when that image is persisted -/
+theorem C06_image_covers_generated_acks (s s' : PSys) (i : Nat) (h : applyEvent s (.rdy i) = .ok s') :
+    ∃ im, (s'.nodes i).pending = (s.nodes i).pending ++ [im] ∧ im.log = (s.nodes i).log ∧
+      im.term = (s.nodes i).term ∧ im.vote = (s.nodes i).vote ∧
+      ∀ m, m ∈ im.acks ↔ (m ∈ (s.nodes i).outbox ∧ m.isAck = true) := by
+  simp only [applyEvent, ok] at h
+  split at h
+  · cases h
+    refine ⟨image (s.nodes i), by simp [upd], rfl, rfl, rfl, ?_⟩
+    intro m; simp [image, List.mem_filter]
   · cases h
 
 /-- **A released vote stays covered by the durable state forever** (in particular after any crash
@@ -190,10 +225,10 @@ and survives a crash -/
 def h0 : List Event :=
   [.bump 1 1, .campaign 1, .rdy 1, .persist 1 1, .release 1 (.voteReq 1 1 0 0), .bump 2 1, .grant 2 1, .rdy 2]
 
-example : (match run init (h0 ++ [.release 2 (.grant 1 2 1)]) with
+example : (match run init (h0 ++ [.release 2 (.grant 1 2 1 {})]) with
     | .ok _ => "released" | .error _ => "refused") = "refused" := by decide
 
-example : (match run init (h0 ++ [.persist 2 1, .release 2 (.grant 1 2 1), .crash 2, .restart 2]) with
+example : (match run init (h0 ++ [.persist 2 1, .release 2 (.grant 1 2 1 {}), .crash 2, .restart 2]) with
     | .ok s => ((s.nodes 2).term, (s.nodes 2).vote, s.grants.length) | .error _ => (0, 0, 0)) = (1, 1, 1) := by
   decide
 
